@@ -68,7 +68,7 @@ d = os.path.join('/verif/seeded', name)
 os.makedirs(d, exist_ok=True)
 shutil.copy(os.path.join(out, 'patch.diff'), d)
 shutil.copy(os.path.join(out, 'demo.diff'), os.path.join(d, 'demo.diff'))
-json.dump({'property': prop, 'what_it_breaks': meta.get('summary'), 'needs_to_manifest': meta.get('needs_to_manifest'),
+json.dump({'property': prop, 'what_it_breaks': meta.get('summary') or meta.get('what_it_breaks'), 'needs_to_manifest': meta.get('needs_to_manifest'),
            'demo_command': meta.get('demo_command'),
            'confirmed': {'suite_passes_with_patch': res['suite_passes'], 'suite_failures': failed,
                          'demo_fails_with_patch': res['demo_fails_with_patch'], 'demo_passes_without_patch': res['demo_passes_without_patch']},
